@@ -206,6 +206,16 @@ func runCase(idx int, class string, n, cap int, reqs []req, cancelAt int, slow b
 	watchdog := time.After(20 * time.Second)
 	doneCh := done
 	for doneCh != nil || errc != nil {
+		// after a cancellation only the merged error stream has to end: startScanEngine does not wait
+		// for done once the context is cancelled, and the sender (unconditional error sends) may stay blocked
+		if cancelled && cancelAt >= 0 && errc == nil && doneCh != nil {
+			select {
+			case <-doneCh:
+				o.DoneClosed = true
+			case <-time.After(50 * time.Millisecond):
+			}
+			break
+		}
 		select {
 		case <-doneCh:
 			atomic.StoreInt32(&doneSeen, 1)
@@ -238,16 +248,6 @@ func runCase(idx int, class string, n, cap int, reqs []req, cancelAt int, slow b
 		case <-watchdog:
 			o.Stuck = fmt.Sprintf("no progress for 20s: done_closed=%v errc_closed=%v", o.DoneClosed, o.ErrcClosed)
 			doneCh, errc = nil, nil
-		}
-		// after a cancellation only the merged error stream has to end: startScanEngine does not wait
-		// for done once the context is cancelled, and the sender (unconditional error sends) may stay blocked
-		if cancelled && cancelAt >= 0 && errc == nil && doneCh != nil {
-			select {
-			case <-doneCh:
-				o.DoneClosed = true
-			case <-time.After(50 * time.Millisecond):
-			}
-			doneCh = nil
 		}
 	}
 	if !released {
